@@ -292,12 +292,21 @@ pub fn run(ctx: &Ctx) -> PropResult {
     all.extend(ctx.random_ifaces());
     let rand_shards = 32usize;
     let rand_cases = ctx.scaled(if ctx.thorough { 40_000 } else { 4_000 });
+    // thorough: the root start node is enumerated one symbol deeper than the others
+    let deep_root = ctx.thorough;
+    let starts_main: Vec<(&'static str, &'static Node)> = if deep_root { starts[1..].to_vec() } else { starts.clone() };
+    let root_only: Vec<(&'static str, &'static Node)> = vec![starts[0]];
+    let n_deep = if deep_root { n_ex } else { 0 };
     let accs = par::run_shards(
-        n_ex + 1 + rand_shards,
+        n_ex + 1 + rand_shards + n_deep,
         ctx.threads,
         |i| {
-            if i < n_ex {
-                dfs_shard(mini, &starts, &[ALPHABET[i / a], ALPHABET[i % a]], max_len)
+            if i >= n_ex + 1 + rand_shards {
+                let k = i - (n_ex + 1 + rand_shards);
+                dfs_shard(mini, &root_only, &[ALPHABET[k / a], ALPHABET[k % a]], max_len + 1)
+            }
+            else if i < n_ex {
+                dfs_shard(mini, &starts_main, &[ALPHABET[i / a], ALPHABET[i % a]], max_len)
             }
             else if i == n_ex {
                 // strings of length 1
@@ -327,7 +336,7 @@ pub fn run(ctx: &Ctx) -> PropResult {
         err += acc.err;
         okc += acc.ok_with_call;
         fe += acc.final_err_prefixes;
-        distinct += if i <= n_ex { acc.strings } else { acc.distinct.len() as u64 };
+        distinct += if i <= n_ex || i >= n_ex + 1 + rand_shards { acc.strings } else { acc.distinct.len() as u64 };
         res.merge(acc.res);
     }
     res.distinct = distinct;
@@ -339,6 +348,7 @@ pub fn run(ctx: &Ctx) -> PropResult {
     );
     res.cov("exhaustive", true);
     res.cov("exhaustive_max_len", max_len);
+    res.cov("exhaustive_max_len_root_start_node", if deep_root { max_len + 1 } else { max_len });
     res.cov("strings_parsed", strings);
     res.cov("prefix_pairs_judged", pairs);
     res.cov("verdict_ok", ok);
